@@ -3,7 +3,7 @@
 use alloc::collections::VecDeque;
 use alloc::sync::Arc;
 use alloc::vec::Vec;
-use core::str::{FromStr, Utf8Error};
+use core::str::FromStr;
 
 use bytes::Bytes;
 use moka::future::Cache;
@@ -989,12 +989,19 @@ pub async fn cached_nsec3_hash(
     hash
 }
 
+/// The first label of an NSEC3 owner name is not a Base32hex encoded hash.
+#[derive(Clone, Copy, Debug)]
+pub struct BadNsec3OwnerLabel;
+
 /// Convert a label to an NSEC3 hash value.
+///
+/// The label comes from the network. Fail if it is not valid Base32hex.
 pub fn nsec3_label_to_hash(
     label: &Label,
-) -> Result<OwnerHash<Vec<u8>>, Utf8Error> {
-    let label_str = core::str::from_utf8(label.as_ref())?;
-    Ok(OwnerHash::<Vec<u8>>::from_str(label_str).expect("should not fail"))
+) -> Result<OwnerHash<Vec<u8>>, BadNsec3OwnerLabel> {
+    let label_str = core::str::from_utf8(label.as_ref())
+        .map_err(|_| BadNsec3OwnerLabel)?;
+    OwnerHash::<Vec<u8>>::from_str(label_str).map_err(|_| BadNsec3OwnerLabel)
 }
 
 /// Is targethash in the range between ownerhash and nexthash?
